@@ -88,6 +88,10 @@ Record facts := {
   f_get_admin_key : string;
   f_get_authority_key : string;
   f_has_denom_key : string;
+  f_get_admin_body : list string;
+  f_get_authority_body : list string;
+  f_mutable_fields : list string;
+  f_mutable_vars : list string;
   f_reject_conditions : list string;
   f_denom_format : string
 }.
@@ -104,5 +108,13 @@ Definition facts_ok (f : facts) : bool :=
   String.eqb (f_get_admin_key f) "denom" && String.eqb (f_get_authority_key f) "denom" &&
   (* existence = bank metadata of denom.Denom().String() *)
   String.eqb (f_has_denom_key f) "denom.Denom().String()" &&
+  (* the admin lookups are one store read and a return: no cache in front of the store … *)
+  list_eqb (f_get_admin_body f)
+    ["read:api.denomAdmins.Get(ctx,denom)"; "return:api.denomAdmins.Get(ctx,denom).Admin,nil"] &&
+  list_eqb (f_get_authority_body f)
+    ["read:api.denomAdmins.Get(ctx,denom)"; "return:api.denomAdmins.Get(ctx,denom),nil"] &&
+  (* … and the keeper holds no mutable state outside the store (which alone is rolled back with a
+     rejected tx — the model's all-or-nothing [deliver_tx] covers the WHOLE state only then) *)
+  match f_mutable_fields f, f_mutable_vars f with [], [] => true | _, _ => false end &&
   list_eqb (f_reject_conditions f) model_reject_conditions &&
   String.eqb (f_denom_format f) model_denom_format.
